@@ -30,9 +30,13 @@ const (
 	// _in on an indexed field: iterator not closed when the scan is restarted or abandoned (also
 	// when the inverted join of sigStop abandons it)
 	sigInPanic = "C09/panic/in-operator-on-indexed-field-unclosed-iterator"
+	// _min/_max over the documents of a list relation: a null value resets the running result
+	sigMinMax = "C09/aggregate/min-max-reset-by-null-related-value"
 )
 
-var knownSigs = []string{sigStop, sigOwnDrop, sigLookup, sigOrderDrop, sigNegDrop, sigSecondary, sigInPanic}
+// _min/_max over a list relation: a related document whose value is null resets the running result
+// (declared below as sigMinMax)
+var knownSigs = []string{sigMinMax, sigStop, sigOwnDrop, sigLookup, sigOrderDrop, sigNegDrop, sigSecondary, sigInPanic}
 
 type defects struct {
 	stop, ownDrop, orderDrop, negDrop, lookup bool
@@ -147,6 +151,9 @@ func sameMultiset(a, b []any, drop string) bool {
 // explainDiff returns the signature of the listed finding that fully explains why got differs
 // from the reference rows, or "".
 func (w *world) explainDiff(b built, plan planInfo, planName string, ref, got []any) string {
+	if b.class == "aggregate-over-holders" {
+		return w.explainMinMax(b, ref, got)
+	}
 	if planName != "inverted" {
 		return ""
 	}
@@ -249,6 +256,59 @@ func (w *world) explainPanic(b built, indexedNode bool, text string) string {
 			(b.class == "relation-filter-with-filtered-sub-selection" && b.q.Op2 == "_in" && w.c.idxN(r.From)) {
 			return sigInPanic
 		}
+	}
+	return ""
+}
+
+// explainMinMax: the rows differ from the model only in _min/_max, and only for documents that have
+// a holder whose n is null among the aggregated ones.
+func (w *world) explainMinMax(b built, ref, got []any) string {
+	if !rec.IsKnown(sigMinMax) || len(ref) != len(got) {
+		return ""
+	}
+	strip := func(row any) (string, string) {
+		m, ok := row.(map[string]any)
+		if !ok {
+			return "", ""
+		}
+		c := map[string]any{}
+		for k, v := range m {
+			if k != "_min" && k != "_max" {
+				c[k] = v
+			}
+		}
+		id, _ := m["_docID"].(string)
+		return id, canonRows([]any{c}, b.dropKey)[0]
+	}
+	want := map[string]string{}
+	full := map[string]string{}
+	for _, r := range ref {
+		id, c := strip(r)
+		want[id] = c
+		full[id] = canonRows([]any{r}, b.dropKey)[0]
+	}
+	hit := false
+	for _, g := range got {
+		id, c := strip(g)
+		if want[id] != c {
+			return ""
+		}
+		if full[id] == canonRows([]any{g}, b.dropKey)[0] {
+			continue
+		}
+		null := false
+		for _, h := range w.holders(b.rel, id) {
+			if h.n == nil {
+				null = true
+			}
+		}
+		if !null {
+			return ""
+		}
+		hit = true
+	}
+	if hit {
+		return sigMinMax
 	}
 	return ""
 }
